@@ -1221,8 +1221,55 @@ def fam_volop():
     return out
 
 
+def fam_joint_foreign_volatile():
+    """round 5 (class of seed C13-8, until now reached by the random stream only): a JointScope takes the name n from a
+    sub scope in which n is NOT volatile while ANOTHER sub scope of the same joint scope has a volatile parameter that is
+    also called n (a constant marked volatile there / a parameter derived from a volatile constant there); both insertion
+    orders, bare / below a MappedScope / as built by VolatileValue.operation; change_constants on either root"""
+    A = {'t': 'dict', 'vals': [['p0', '1'], ['p1', '2']], 'vol': ['p0']}
+    B = {'t': 'dict', 'vals': [['p1', '2'], ['p2', '3']], 'vol': ['p1', 'p2']}
+    M = lambda o, *kv: {'t': 'mapped', 'o': o, 'm': [list(q) for q in kv]}
+    mA = M(A, ('p5', ['*', _v('p1'), ['c', '2']]))                       # p5 = 2 * p1: not volatile over A
+    mB = M(B, ('p5', _v('p1')), ('p6', ['+', _v('p2'), ['c', '1']]))     # p5 = p1: volatile over B
+    loopB = {'t': 'range', 'i': B, 'n': 'p0', 'v': '4'}                  # p0 not volatile (index), p1 / p2 volatile
+    W = lambda n, o, e: [n, M(o, (n, e))]
+    shapes = [
+        [['p1', A], ['p2', B]],                      # p1 from A (plain constant); B marks p1 volatile
+        [['p2', B], ['p1', A]],
+        [['p1', A], ['p0', A], ['p2', B]],           # ... next to a name that IS volatile in the sub scope it comes from
+        [['p5', mA], ['p6', mB]],                    # p5 from mA (not volatile); mB has a volatile p5
+        [['p6', mB], ['p5', mA]],
+        [['p5', mA], ['p6', mB], ['p1', B]],
+        [['p0', loopB], ['p2', B], ['p1', A]],       # p0 from the loop (index); A marks p0 volatile but provides p1 only
+        [['p1', A], ['p0', loopB]],
+    ]
+    opshapes = [
+        [W('p5', A, ['*', _v('p1'), ['c', '2']]), W('p6', mB, ['+', _v('p2'), _v('p5')])],
+        [W('p6', mB, ['+', _v('p2'), _v('p5')]), W('p5', A, ['*', _v('p1'), ['c', '2']])],
+        [W('p1', A, ['+', _v('p1'), ['c', '1']]), W('p7', B, ['+', _v('p1'), _v('p2')])],
+    ]
+    changes = [[[['p0', '7']], [['p2', '0@f']]], [[['p2', '9']], [['p7', '1']], [['p0', '0'], ['p2', '4@t']]]]
+    out = []
+    for l in shapes:
+        for ch in changes:
+            for wrap in (None, 'mapped'):
+                s = {'t': 'joint', 'l': l}
+                if wrap:
+                    s = M(s, ('p7', ['+', _v(l[0][0]), _v(l[-1][0])]))
+                ops = r4_history(s, ch)
+                if history_bounded(s, ops):
+                    out.append({'kind': 'hist', 'scope': s, 'ops': ops, 'src': 'family5'})
+    for l in opshapes:
+        for ch in changes:
+            s = {'t': 'joint', 'l': l}
+            ops = r4_history(s, ch)
+            if history_bounded(s, ops):
+                out.append({'kind': 'hist', 'scope': s, 'ops': ops, 'src': 'family5', 'via': 'op'})
+    return out
+
+
 def r4_cases(full):
-    return fam_joint_roots(full) + fam_shadow_change(full) + fam_volop() + fam_eqt(full)
+    return fam_joint_roots(full) + fam_shadow_change(full) + fam_volop() + fam_eqt(full) + fam_joint_foreign_volatile()
 
 
 def exhaustive_small(rng, frac):
@@ -1896,6 +1943,18 @@ def _histogram_keys(case, obs):
 
 
 def classify(case, obs):
+    return None
+
+
+def py_spec(case, obs):
+    """harness-side part of the specification: inside a history, a twin of the current scope that the generator built to
+    be equal (the same JSON / other insertion orders / integral constants given as floats) must be == to it (check_spec
+    judges the converse directions: equal => equal hash, equal => the same mapping, names and volatile parameters)"""
+    if case['kind'] != 'hist' or 'obs' not in obs:
+        return None
+    for op, o in zip(case['ops'], obs['obs']):
+        if op[0] == 'eq' and len(op) > 2 and op[2] in ('same', 'perm', 'numty') and 'ok' in o and not o['ok'][0]:
+            return 'a scope built as a twin of the current scope (variant %s) is not == to it' % op[2]
     return None
 
 
